@@ -247,7 +247,11 @@ struct Sim {
 }
 
 fn open_off_chain(store: &Arc<FaultyStore<OffChain>>) -> Database<OffChain> {
-    <Database<OffChain>>::new(store.clone())
+    // opening reads the metadata: the harness's own reads are not subject to injected faults
+    let armed = std::mem::take(&mut *store.plan.lock().unwrap());
+    let db = <Database<OffChain>>::new(store.clone());
+    *store.plan.lock().unwrap() = armed;
+    db
 }
 
 pub async fn world(ctx: &mut Ctx) {
@@ -552,6 +556,7 @@ impl Sim {
             ctx.ev(format!("  deliver import result {h}"));
             if w.tx.send(r).is_err() {
                 ctx.ev("  worker stream closed");
+                *self.plan.lock().unwrap() = Default::default();
                 break;
             }
             // let the worker process it before the next fault is armed
@@ -646,6 +651,8 @@ impl Sim {
             }
             c37_query(ctx, &self.spec, &tables, &view, &self.chain.ext.fresh, quiescent).await;
         }
+        // what follows (block production, importer) belongs to the property under check
+        ctx.scope("");
     }
 }
 
@@ -1057,13 +1064,20 @@ async fn c37_query(ctx: &mut Ctx, spec: &ChainSpec, tables: &Tables, view: &Read
     } else {
         verif_api::read_view_without_indexation(view, IndexationKind::CoinsToSpend)
     };
-    let answer = verif_api::coins_to_spend(&the_view, owner, &queries, &exclude, &spec.params, max_inputs).await;
     let algo = if indexed { "indexed" } else { "non-indexed" };
+    // the selection draws from thread_rng (shuffle, dust count): the same request is issued a few
+    // times, every answer has to pass; the verdict (answer / which error) is the same each time and
+    // is logged once
+    let reps = if ctx.prop == "C37" { 4 } else { 1 };
+    for rep in 0..reps {
+    let answer = verif_api::coins_to_spend(&the_view, owner, &queries, &exclude, &spec.params, max_inputs).await;
     match answer {
         Ok(lists) => {
             // while the index lags, which resources the random part of the selection touches
             // decides between an answer and a not-found error: the outcome is not recorded then
-            ctx.ev(if quiescent { "  -> ok" } else { "  -> (index lags behind the chain: outcome not recorded)" });
+            if rep == 0 {
+                ctx.ev(if quiescent { "  -> ok" } else { "  -> (index lags behind the chain: outcome not recorded)" });
+            }
             if !ctx.check("C37", "answer-shape", lists.len() == queries.len(), || {
                 format!("{} lists for {} requested assets", lists.len(), queries.len())
             }) {
@@ -1131,10 +1145,12 @@ async fn c37_query(ctx: &mut Ctx, spec: &ChainSpec, tables: &Tables, view: &Read
                 CoinsQueryError::StorageError(_) => "storage",
                 _ => "other",
             };
-            if quiescent {
-                ctx.ev(format!("  -> error {kind}"));
-            } else {
-                ctx.ev("  -> (index lags behind the chain: outcome not recorded)");
+            if rep == 0 {
+                if quiescent {
+                    ctx.ev(format!("  -> error {kind}"));
+                } else {
+                    ctx.ev("  -> (index lags behind the chain: outcome not recorded)");
+                }
             }
             match &e {
                 CoinsQueryError::InsufficientCoins { asset_id, .. } | CoinsQueryError::MaxCoinsReached { asset_id, .. } => {
@@ -1167,5 +1183,6 @@ async fn c37_query(ctx: &mut Ctx, spec: &ChainSpec, tables: &Tables, view: &Read
                 }
             }
         }
+    }
     }
 }
